@@ -29,7 +29,8 @@ TECHNIQUE = "runtime monitoring: stream-boundary event recorder + reference-mode
 LEVEL_TEXT = ("Every generated history is executed against the real send_message / typed helpers on a "
               "virtual-time loop and decided by a reference model of 'first matching response wins'; "
               "bounded-exhaustive for histories of length <=2-3 over 14 message kinds and a time grid "
-              "around poll boundaries and the deadline, seeded beyond. Held = on the histories explored.")
+              "around poll boundaries and the deadline, seeded beyond. Held = on the histories explored."
+              " Also through the real stdio transport: 0-1000 non-matching messages of mixed kinds ahead of the matching response, in 1 or 3 writes.")
 LEVEL_NOTE = ("Trusted: the virtual-time loop (asyncio SelectorEventLoop subclass), anyio memory streams, "
               "the oracle in vf/props/c01.py. Schedules not generated are not covered.")
 ASSUMPTIONS = [
